@@ -231,7 +231,16 @@ ev = _ev_with_box  # noqa: F811
 
 def make_callable(forest, mod, qual, interp, extra_env=None):
     """FuncVal for repository function mod.qual, with the module's folded constants as globals."""
+    genv = callable_env(forest, mod, interp, extra_env)
+    return FuncVal(forest.func(mod, qual), genv, interp)
+
+
+def callable_env(forest, mod, interp, extra_env=None):
+    """Global environment of `mod` in which its own top-level functions can call each other."""
     genv = _evmod.base_env(forest, mod)
+    for k, v in list(genv.items()):
+        if isinstance(v, FuncRef) and isinstance(v.node, ast.FunctionDef):
+            genv[k] = FuncVal(v.node, genv, interp)
     if extra_env:
         genv.update(extra_env)
-    return FuncVal(forest.func(mod, qual), genv, interp)
+    return genv
